@@ -94,10 +94,17 @@ def gen(rng, tier):
         kind, el, p = rand_set(rng)
         for lat, lon in points(rng, kind, p, 6 if big else 5):
             rnd.append(case_line(kind, el, p, lat, lon))
+            if rng.random() < 0.25:
+                # the same projection parameters and the bit-identical point on another ellipsoid, right afterwards
+                # (converters for several datums used side by side in one process: nothing may be shared between them)
+                el2 = rng.choice([e for e in (GRS80, CLARKE, rand_ellipsoid(rng)) if e != el])
+                rnd.append(case_line(kind, el2, p, lat, lon))
     for _ in range(5000 if big else 600):
         lat = rng.choice([1, -1]) * rng.choice([rng.uniform(0, 85 * DEG), rng.uniform(7 * DEG, 83 * DEG), 0.0, 83 * DEG])
         e = rng.choice([0.0, 0.1, 0.0818191910428, 0.08248325676, rng.uniform(0, 0.1)])
         iso.append("iso %s %s" % (hexf(lat), hexf(e)))
+        if rng.random() < 0.25:
+            iso.append("iso %s %s" % (hexf(lat), hexf(rng.choice([0.0, 0.1, 0.05, rng.uniform(0, 0.1)]))))
     return [("named-zones", named), ("random-sets", rnd), ("isometric-latitude", iso)]
 
 
